@@ -6,6 +6,7 @@ from ..core import Acc, Viol, jhash
 from .. import pk, gen, cmp, corpus
 
 ID = 'C07'
+HORIZON_S = 1800   # one case = one input under all its transformations
 LEVEL = 'exploration'
 LEVEL_TEXT = ('Every input of the corpus is edited by every single edit (quick) and every pair of edits from different families '
               '(thorough) of a fixed list: one record of each ignorable residue name as ATOM and HETATM at four positions and 2.6 A '
